@@ -15,7 +15,7 @@ RULE = ('(policy, peer) pairs evaluated by the real Policy.evaluate on a real SS
         'field pairs jointly over a reduced universe, random large instances over database names, and policy files run through the CLI (-P) against scripted peers; '
         'a case (batch) is non-trivial when it contained at least one passing and one failing pair; distinct = distinct batch specifications')
 REQUIRED = {'evaluations': 20000, 'model_pass': 500, 'model_fail': 500, 'metamorphic_checks': 200, 'cli_runs': 20}
-ASSUMPTIONS = ['don\'t-care where the statement is silent: subset mode with a peer host key that is only in the optional list; compression under subset mode; an empty peer list under subset mode',
+ASSUMPTIONS = ['don\'t-care where the statement is silent: compression under subset mode; an empty peer list under subset mode (optional host keys give no exemption under subset mode: the statement mentions them for exact mode only)',
                'sizes are compared only for key types / group-exchange names the peer actually presents (nothing to compare otherwise)']
 MANIFEST = {
     'text': 'Exploration (exhaustive over the stated small universe in the thorough tier): the real Policy.evaluate is compared with a 40-line reference model of the statement on every enumerated (policy, peer) pair, with monotonicity relations and a CLI wiring sample; holds on the pairs enumerated.',
@@ -60,9 +60,9 @@ def model(pol, peer):
                 dc.add(FIELD_ERR[f])
                 continue
             extra = [x for x in have if x not in pol[f]]
-            if f == 'key' and extra and all(x in (pol.get('optional') or []) for x in extra):
-                dc.add(FIELD_ERR[f])
-            elif extra:
+            if extra:
+                # literal reading of the statement: under subset mode every advertised name must be drawn from the policy's list;
+                # the optional host keys are only mentioned for exact mode, so they give no exemption here
                 bad.add(FIELD_ERR[f])
             if f == 'kex':
                 for m in (MARK, 'kex-strict-c-v00@openssh.com'):
